@@ -156,10 +156,8 @@ def writeMac (data : Bytes) (block : Nat) : RW σ Unit :=
     sendRecv x c >>= fun rsp =>
     lift (writeRsp idm rsp)
 
-/-- `FelicaLiteS.authenticate(password)` (with the repair of `lite-s-auth-mac-failure-typeerror`) -/
-def authLiteS (pw rc : Bytes) : RW σ Bool :=
-  authLite C forget x idm pw rc >>= fun ok =>
-  if !ok then pure false else
+/-- the external half of `FelicaLiteS.authenticate`, after the internal authentication succeeded -/
+def extAuthS : RW σ Bool :=
   setAuthed false >>= fun _ =>
   writeMac C x idm ([1] ++ zeros 15) 0x92 >>= fun _ =>
   readMac C x idm [0x92] >>= fun st =>
@@ -168,6 +166,11 @@ def authLiteS (pw rc : Bytes) : RW σ Bool :=
   | some d =>
     lift (idx d 0) >>= fun b =>
     if b = 1 then setAuthed true >>= fun _ => pure true else pure false
+
+/-- `FelicaLiteS.authenticate(password)` (with the repair of `lite-s-auth-mac-failure-typeerror`) -/
+def authLiteS (pw rc : Bytes) : RW σ Bool :=
+  authLite C forget x idm pw rc >>= fun ok =>
+  if !ok then pure false else extAuthS C x idm
 
 /-- `bytearray` slice assignment `b[i:i+len(v)] = v` for `i + len(v) <= len(b)` -/
 def setSlice (b : Bytes) (i : Nat) (v : Bytes) : Bytes := b.take i ++ v ++ b.drop (i + v.length)
@@ -182,10 +185,12 @@ def pwCheck (pw : Option Bytes) : Py Unit :=
 
 def keyOf (p : Bytes) : Bytes := if p = [] then zeros 16 else p.take 16
 
-/-- `FelicaLite._protect(password, read_protect, protect_from)` for `protect_from ≥ 1` -/
-def protectLite (pw : Option Bytes) (rp : Bool) (pf : Nat) : RW σ Bool :=
+/-- `FelicaLite._protect(password, read_protect, protect_from)` up to the point where the NDEF
+attribute block is looked at (`protect_from == 0 and self.ndef is not None`): `none` = the method
+returned False, `some mc` = the MC block as prepared so far -/
+def protectLiteA (pw : Option Bytes) (rp : Bool) (pf : Nat) : RW σ (Option Bytes) :=
   lift (pwCheck pw) >>= fun _ =>
-  if rp then pure false else
+  if rp then pure none else
   readPlain x idm [0x88] >>= fun mc =>
   (match pw with
    | none => pure true
@@ -193,13 +198,27 @@ def protectLite (pw : Option Bytes) (rp : Bool) (pf : Nat) : RW σ Bool :=
      lift (idx mc 2) >>= fun m2 =>
      if m2 ≠ 0xFF then pure false else
      writePlain x idm (revHalves (keyOf p)) 0x87 >>= fun _ => pure true) >>= fun go =>
-  if !go then pure false else
-  let mc1 := if pf < 14 then setSlice mc 0 (le16 (0x7FFF ^^^ (2 ^ 14 - 2 ^ pf))) else mc
+  if !go then pure none else
+  pure (some (if pf < 14 then setSlice mc 0 (le16 (0x7FFF ^^^ (2 ^ 14 - 2 ^ pf))) else mc))
+
+/-- the end of `FelicaLite._protect`: the system blocks are locked -/
+def protectLiteB (mc1 : Bytes) : RW σ Bool :=
   writePlain x idm (mc1.set 2 0) 0x88 >>= fun _ => pure true
 
-/-- `FelicaLiteS._protect(password, read_protect, protect_from)` for `protect_from ≥ 1`; `rc` is the
-challenge of the `authenticate(key)` call inside (drawn only when a password is given) -/
-def protectLiteS (pw : Option Bytes) (rp : Bool) (pf : Nat) (rc : Bytes) : RW σ Bool :=
+/-- `FelicaLite._protect(password, read_protect, protect_from)` for `protect_from ≥ 1` (for
+`protect_from = 0` the NDEF step of `Model/AuthNdef.lean` sits between the two halves) -/
+def protectLite (pw : Option Bytes) (rp : Bool) (pf : Nat) : RW σ Bool :=
+  protectLiteA x idm pw rp pf >>= fun r =>
+  match r with
+  | none => pure false
+  | some mc1 => protectLiteB x idm mc1
+
+/-- `FelicaLiteS._protect(password, read_protect, protect_from)` up to the NDEF step; `rc` is the
+challenge of the `authenticate(key)` call inside (drawn only when a password is given).  The
+authentication is the parameter `auth` (`authLiteS`; `Model/AuthNdef.lean` passes the version
+that also keeps the NDEF cache of the tag object). -/
+def protectLiteSA (auth : Bytes → Bytes → RW σ Bool) (pw : Option Bytes) (rp : Bool) (pf : Nat) (rc : Bytes) :
+    RW σ (Option Bytes) :=
   lift (pwCheck pw) >>= fun _ =>
   readPlain x idm [0x88] >>= fun mc =>
   (match pw with
@@ -214,14 +233,23 @@ def protectLiteS (pw : Option Bytes) (rp : Bool) (pf : Nat) (rc : Bytes) : RW σ
      lift (idx ckv 1) >>= fun v1 =>
      writePlain x idm (le16 (min (v0 + 256 * v1 + 1) 0xFFFF) ++ zeros 14) 0x86 >>= fun _ =>
      writePlain x idm (revHalves (keyOf p)) 0x87 >>= fun _ =>
-     authLiteS C forget x idm (keyOf p) rc >>= fun ok =>
+     auth (keyOf p) rc >>= fun ok =>
      if !ok then pure none else
      pure (some (if rp ∧ pf < 14 then setSlice mc 6 (le16 (2 ^ 14 - 2 ^ pf)) else mc))) >>= fun r =>
   match r with
-  | none => pure false
+  | none => pure none
   | some mc =>
-    let mc1 := if pf < 14 then setSlice (setSlice mc 8 (le16 (2 ^ 14 - 2 ^ pf))) 10 (le16 (2 ^ 14 - 2 ^ pf)) else mc
-    writePlain x idm ((mc1.set 2 0).set 5 1) 0x88 >>= fun _ => pure true
+    pure (some (if pf < 14 then setSlice (setSlice mc 8 (le16 (2 ^ 14 - 2 ^ pf))) 10 (le16 (2 ^ 14 - 2 ^ pf)) else mc))
+
+def protectLiteSB (mc1 : Bytes) : RW σ Bool :=
+  writePlain x idm ((mc1.set 2 0).set 5 1) 0x88 >>= fun _ => pure true
+
+/-- `FelicaLiteS._protect(password, read_protect, protect_from)` for `protect_from ≥ 1` -/
+def protectLiteS (pw : Option Bytes) (rp : Bool) (pf : Nat) (rc : Bytes) : RW σ Bool :=
+  protectLiteSA x idm (authLiteS C forget x idm) pw rp pf rc >>= fun r =>
+  match r with
+  | none => pure false
+  | some mc1 => protectLiteSB x idm mc1
 
 end methods
 
